@@ -91,3 +91,16 @@ func NewFarPair(dataPages int) (lo, hi *Arena, err error) {
 	}
 	return lo, hi, nil
 }
+
+// SetReadOnly makes the arena's data pages read-only (or read-write again): a kernel that writes to an operand it is
+// only supposed to read - even if it puts the old value back - faults on the spot.
+func (a *Arena) SetReadOnly(ro bool) {
+	prot := syscall.PROT_READ | syscall.PROT_WRITE
+	if ro {
+		prot = syscall.PROT_READ
+	}
+	data := a.mem[arenaPage : len(a.mem)-arenaPage]
+	if err := syscall.Mprotect(data, prot); err != nil {
+		panic("arena: mprotect: " + err.Error())
+	}
+}
